@@ -919,6 +919,82 @@ func (g *gen) interleavedMarkers() {
 	g.feat("interleaved-marker-parts")
 }
 
+// adjacentMerges: one transaction merging into the same string (or numeric) column of several rows at
+// consecutive offsets (the buffer holds a run of merge records with offset delta 1)
+func (g *gen) adjacentMerges() {
+	cands := g.colsOf(func(c genCol) bool { return c.kind == "string" || isNum(c.kind) })
+	l := g.liveList()
+	if len(cands) == 0 || len(l) < 3 {
+		return
+	}
+	c := cands[g.r.Intn(len(cands))]
+	for _, x := range cands {
+		if x.kind == "string" && g.r.Intn(2) == 0 {
+			c = x
+		}
+	}
+	// a run of consecutive live offsets that are known to hold a value (finding D11 otherwise)
+	var run []uint32
+	for i := 0; i+1 < len(l); i++ {
+		if l[i+1] == l[i]+1 && g.hasVal[l[i]][c.name] && g.hasVal[l[i+1]][c.name] {
+			if len(run) == 0 {
+				run = append(run, l[i])
+			}
+			if run[len(run)-1] == l[i] {
+				run = append(run, l[i+1])
+			}
+			if len(run) >= 4 {
+				break
+			}
+		} else if len(run) >= 2 {
+			break
+		} else {
+			run = nil
+		}
+	}
+	if len(run) < 2 && !g.p.dirty {
+		// make the run: set then (next transaction) merge
+		if len(l) < 3 {
+			return
+		}
+		start := g.r.Intn(len(l) - 1)
+		for i := start; i+1 < len(l) && len(run) < 3; i++ {
+			if len(run) == 0 || l[i] == run[len(run)-1]+1 {
+				run = append(run, l[i])
+			} else {
+				break
+			}
+		}
+		if len(run) < 2 {
+			return
+		}
+		g.nTxn++
+		t0 := fmt.Sprintf("a%d", g.nTxn)
+		g.emit("p begin " + t0)
+		for _, o := range run {
+			if isNum(c.kind) {
+				g.emit(fmt.Sprintf("p %s at %d set:%s:%s", t0, o, c.name, g.numValue(c.kind, true)))
+			} else {
+				g.emit(fmt.Sprintf("p %s at %d set:%s:%s", t0, o, c.name, g.strValue(false)))
+			}
+		}
+		g.emit("p commit " + t0)
+	}
+	g.nTxn++
+	tid := fmt.Sprintf("a%d", g.nTxn)
+	g.emit("p begin " + tid)
+	for _, o := range run {
+		if isNum(c.kind) {
+			g.emit(fmt.Sprintf("p %s at %d merge:%s:%s", tid, o, c.name, g.numValue(c.kind, true)))
+		} else {
+			g.emit(fmt.Sprintf("p %s at %d merge:%s:%s", tid, o, c.name, g.strValue(false)))
+		}
+	}
+	g.emit("p commit " + tid)
+	g.syncLive(g.emit("p dump"))
+	g.feat("adjacent-merges")
+}
+
 // filteredDelete: DeleteAll over a filtered selection, after reading an aggregate in the same transaction
 // (a filter or aggregate that disturbs the selection shows in what gets deleted)
 func (g *gen) filteredDelete() {
@@ -1204,11 +1280,13 @@ func genStoreCase(r *rand.Rand, p profile, rep *Report, id int) Case {
 				g.dumpAll()
 			}
 		case x < 24:
-			switch r.Intn(3) {
+			switch r.Intn(4) {
 			case 0:
 				g.filteredDelete()
 			case 1:
 				g.interleavedMarkers()
+			case 2:
+				g.adjacentMerges()
 			default:
 				g.holes()
 			}
